@@ -8,6 +8,7 @@ import SpiceEv.Cmd.ScenarioRun
 import SpiceEv.Cmd.StrategyUtil
 import SpiceEv.Cmd.Util
 import SpiceEv.Cmd.GenCsv
+import SpiceEv.Cmd.Events
 import SpiceEv.Cmd.Gen
 import SpiceEv.Cmd.Costs
 import SpiceEv.Cmd.ScheduleGen
@@ -22,6 +23,7 @@ def allHandlers : List (String × Handler) :=
   ++ Cmd.StrategyUtil.handlers
   ++ Cmd.Util.handlers
   ++ Cmd.GenCsv.handlers
+  ++ Cmd.Events.handlers
   ++ Cmd.Strategies.handlers
   ++ Cmd.Distributed.handlers
   ++ Cmd.Gen.handlers
